@@ -1364,6 +1364,32 @@ package larking
 // concurrently and their interleavings are outside these contracts). The pump that
 // copies the client's messages to the backend must forward the end of the client's
 // stream: a backend that reads until io.EOF otherwise never answers.
+//@ func isStreamError serves C10 C09
+//@   ensures [end-of-stream-and-cancellation-are-not-failures C10] result == (err != nil && err != io.EOF && err != context.Canceled)
+// The streaming proxy body: the backend stream is opened for the proxied method's own name
+// and shape, with the caller's metadata when there is any; the first request message is
+// passed on as received; a failure of the backend is returned as it is (it carries code,
+// message and details); after a clean end the backend's trailer is passed on.
+//@ func createConnHandler$1 serves C10 partial ghost count post
+//@   returns (err)
+//@   count outctx `metadata.NewOutgoingContext(ctx, md)`
+//@   count trailers `stream.SetTrailer(`
+//@   assert atcall `cc.NewStream(` [backend-stream-is-the-proxied-method C10] arg3 == method && arg2 == sd
+//@   assert atcall `cc.NewStream(` [request-metadata-is-forwarded C10] ok ==> outctx == 1
+//@   assert atcall `clientStream.SendMsg(args)` [first-message-is-passed-on-as-received C10] pay(arg0) == args
+//@   ensures [backend-failure-is-returned-as-it-is C10] at "return outErr" err == outErr
+//@   assert at "return err" [an-empty-client-stream-is-not-an-error C10] err != io.EOF
+//@   witness verifWitnessProxyEmptyStream for an-empty-client-stream
+//@   ensures [clean-end-passes-the-trailer-on C10] at "return nil" trailers == 1
+// The unary proxy body: the backend is invoked for the proxied method's own name with the
+// caller's metadata, request and reply are the ones handed in and out, an error is passed on.
+//@ func createConnHandler$3 serves C10 partial ghost count post
+//@   returns (res, err)
+//@   count outctx `metadata.NewOutgoingContext(ctx, md)`
+//@   assert atcall `cc.Invoke(` [backend-call-is-the-proxied-method C10] arg2 == method && same(arg3, args) && pay(arg4) == reply
+//@   assert atcall `cc.Invoke(` [request-metadata-is-forwarded C10] ok ==> outctx == 1
+//@   ensures [backend-error-is-passed-on C10] at "return nil, err" err != nil
+//@   ensures [reply-is-the-backends C10] at "return reply, nil" pay(res) == reply && err == nil
 //@ func createConnHandler$1$1 serves C10 partial ghost count post inv.init inv.keep
 //@   count closes `clientStream.CloseSend(`
 //@   ensures [client-half-close-reaches-the-backend C10] inErr == io.EOF ==> closes == 1
